@@ -56,7 +56,10 @@ def _gen_from(rnd):
         return _gen_annot(rnd)
     vendor = rnd.choice(VENDORS)
     # (a flat-stream device has no 'entering a block again replaces its content': %rewrite objects exist on block-structured vendors only)
-    rules = RL.gen_rules(rnd, opts={"rewrite": False} if (vendor in FLAT or vendor in MENU) else None)
+    # (flat vendors: one more head that merely STARTS with the letters of their negation word - 'delete-binding-on-renegotiation' is a
+    # Junos statement -, as 'notify' / 'undone' do for no / undo)
+    rules = RL.gen_rules(rnd, heads=(RL.HEADS + ["deleted"]) if vendor in FLAT else None,
+                         opts={"rewrite": False} if (vendor in FLAT or vendor in MENU) else None)
     ctx = RL.Ctx(rules)
     unk = 0.3 if rnd.random() < 0.4 else 0.0
     old = RL.gen_tree(rnd, ctx, unk)
